@@ -59,7 +59,8 @@ def run_thorough(ctx, mod):
         except (OSError, ValueError):
             meta = {}
         # a change is used to self-validate every check that is expected to see it
-        if ctx.pid in (meta.get("expected_checks") or [meta.get("property", os.path.basename(d)[:3])]):
+        exp = meta["expected_checks"] if "expected_checks" in meta else [meta.get("property", os.path.basename(d)[:3])]
+        if ctx.pid in exp:
             seeded.append(d)
     known, _ = ctx.known()
     for d in seeded:
